@@ -216,10 +216,21 @@ func blockReaches(b, _ *ssa.BasicBlock) bool { return blockReachesFrom(b, b) }
 // function being translated whose address has not escaped before the call keep their contents.
 func (vc *VC) havocCall(h *Heap, why string, at ssa.Instruction, keepGhost ...string) {
 	old := h.clone()
+	keepGhost = append(keepGhost, vc.localGhosts()...) // accumulators of this contract: no code writes them
+	for _, g := range sortedKeys(vc.CS.Ghosts) {
+		if vc.CS.Ghosts[g].Acc {
+			if _, used := h.M["G_"+g]; used {
+				keepGhost = append(keepGhost, g)
+				vc.root().assumed["accumulator "+g+" is not changed by calls of unknown code (they do not reach a function that updates it)"] = true
+			}
+		}
+	}
 	vc.havocAll(h, why, keepGhost...)
 	if at == nil || at.Parent() != vc.fn {
 		return
 	}
+	vc.keepUnsharedCells(h, old, at)
+	vc.keepFreshResults(h, old, at)
 	for _, b := range vc.fn.Blocks {
 		for _, in := range b.Instrs {
 			a, ok := in.(*ssa.Alloc)
@@ -230,7 +241,7 @@ func (vc *VC) havocCall(h *Heap, why string, at ssa.Instruction, keepGhost ...st
 			if !have || len(v) != 1 || !strings.HasPrefix(v[0], "(mkptr ") {
 				continue
 			}
-			if !canPrecede(a, at) || escapesAt(a, at, 0) {
+			if !canPrecede(a, at) || vc.sharedBefore(a, at, 0) {
 				continue
 			}
 			obj := ptrAddr(v[0]).Obj
